@@ -131,7 +131,9 @@ def _compose(cls, p, any_pre, req=None):
        ensures=[f"forall(RVM, lambda m: implies(m in result, {p}all_sound(self, rule_violations, m)))", f"{p}all_complete(self, rule_violations, result)"])
     # C03: every line is the rendering 'subject verb object.' of a record of some bucket; every bucket entry has its line; no line occurs twice (sorted(list(set)))
     mg("create_rule_violation_messages", BASE, params=rv, returns="Bag[Str]", returns_nodup=True, locals=dict(messages="Set[Str]"), opaque=opq2, requires=allreq,
-       ensures=[f"{p}lines_post(self, rule_violations, result)"],
+       ensures=[f"forall(Str, lambda t: implies(t in result, exists(RVM, lambda m: {p}all_sound(self, rule_violations, m) and t == line(m))))"]
+       + [f"{p}noimp_complete_l(self, rule_violations.{b}, {pre_of(a)}, result)" for b, a in _NOIMP_BUCKETS]
+       + [f"{p}other_complete_l(self, rule_violations.{b}, result)" for b in _OTHER_BUCKETS],   # together: {p}lines_post(self, rule_violations, result)
        loops={0: dict(sig="for message in self._create_violation_messages(rule_violations)", invariant=[
            "forall(Str, lambda t: (t in messages) == exists(RVM, lambda m: (m in seen) and t == line(m)))"])})
     # the text of the AssertionError: a newline-join of (some arrangement of) exactly those lines
@@ -214,3 +216,92 @@ _mg("RuleMatcher._create_rule_violation_message@str", qualname="RuleMatcher._cre
     ensures=["text_post(gen_of(self), rule_violations, result)"],
     note="string-view contract of the function whose default-view contract in c_rules.py (status assumed: total, returns a str) is used by RuleMatcher.match; "
          "this contract proves that assumption (no exception, Str) and states what the text is")
+
+# ---------------------------------------------------------------- group 3: LayerRuleViolationMessageGenerator (messages of layer rules, C05)
+# The layer lookup enters as the ONE uninterpreted function layer_of(mapping, name) of c_layers.py (LayerMapping.get_layer_for_module_name: bounded there, its
+# meaning proved separately in c_layermap.py); the generator's record carries the mapping as an opaque value.
+LRMG = "LayerRuleViolationMessageGenerator"
+vals.declare_obj(LRMG, dict(_import_rule="Bool", _base_verb="Str", _layer_mapping="Opaque[LayerMapping]"))
+REG.class_bases[LRMG] = [RMG]
+ANY_LAYER = "any layer that is not "
+REG.macro("lsuffix", ["L", "n"], "' (no layer)' if is_none(layer_of(L, n)) else (' (layer ' + quoted(unwrap(layer_of(L, n))) + ')')")
+REG.macro("lname", ["L", "x"], "quoted(mid(x)) + lsuffix(L, mid(x))")
+REG.macro("lay", ["L", "x"], "unwrap(layer_of(L, mid(x)))")
+# every module of a missing-import pair belongs to a layer (the layer detector only reports pairs of modules listed in the rule's layers)
+REG.macro("ltotal", ["L", "B"], "forall(Dep, lambda d: implies(d in B, (not is_none(layer_of(L, mid(d[0])))) and (not is_none(layer_of(L, mid(d[1]))))))")
+REG.macro("lviol", ["L", "B", "l"], "exists(Dep, lambda d: (d in B) and l == lay(L, d[0]))")
+set_function("lnoimp_objs", dict(L="Opaque[LayerMapping]", B="Bag[Dep]", l="Str"), "t", "Str",
+             "exists(Dep, lambda d: (d in B) and l == lay(L, d[0]) and t == 'layer ' + quoted(lay(L, d[1])))")
+REG.macro("lneg_verb", ["g"], "verb_prefix(g._import_rule, True, True) + g._base_verb")
+REG.define("lnoimp_match", dict(g=LRMG, B="Bag[Dep]", l="Str", pre="Str", m="RVM"),
+           "rvm_subject(m) == 'Layer ' + quoted(l) and rvm_verb(m) == lneg_verb(g) and rvm_object(m).startswith(pre) "
+           "and is_join(rvm_object(m)[len(pre):len(rvm_object(m))], ', ', lnoimp_objs(g._layer_mapping, B, l))")
+REG.define("lother_img", dict(g=LRMG, B="Bag[Dep]", m="RVM"),
+           "exists(Dep, lambda d: (d in B) and m == mk_rvm(lname(g._layer_mapping, d[0]), imports_verb(g), lname(g._layer_mapping, d[1])))")
+REG.define("lnoimp_sound", dict(g=LRMG, B="Bag[Dep]", pre="Str", m="RVM"), "exists(Str, lambda l: lviol(g._layer_mapping, B, l) and lnoimp_match(g, B, l, pre, m))")
+REG.define("lnoimp_complete", dict(g=LRMG, B="Bag[Dep]", pre="Str", R="Bag[RVM]"),
+           "forall(Str, lambda l: implies(lviol(g._layer_mapping, B, l), exists(RVM, lambda m: (m in R) and lnoimp_match(g, B, l, pre, m))))")
+REG.define("lother_complete", dict(g=LRMG, B="Bag[Dep]", R="Bag[RVM]"),
+           "forall(Dep, lambda d: implies(d in B, mk_rvm(lname(g._layer_mapping, d[0]), imports_verb(g), lname(g._layer_mapping, d[1])) in R))")
+REG.define("lother_complete_l", dict(g=LRMG, B="Bag[Dep]", L="Bag[Str]"),
+           "forall(Dep, lambda d: implies(d in B, line(mk_rvm(lname(g._layer_mapping, d[0]), imports_verb(g), lname(g._layer_mapping, d[1]))) in L))")
+REG.define("lnoimp_complete_l", dict(g=LRMG, B="Bag[Dep]", pre="Str", L="Bag[Str]"),
+           "forall(Str, lambda l: implies(lviol(g._layer_mapping, B, l), exists(RVM, lambda m: (line(m) in L) and lnoimp_match(g, B, l, pre, m))))")
+_C05 = ["C03", "C05"]
+_mg(f"{LRMG}.__init__", params=dict(self=LRMG, import_rule="Bool", layer_mapping="Opaque[LayerMapping]"), returns="None", modifies=["self"], properties=_C05,
+    ensures=["self._import_rule == import_rule", "self._base_verb == ('import' if import_rule else 'imported by')", "self._layer_mapping == layer_mapping"])
+_mg(f"{LRMG}._get_suffix", params=dict(self=LRMG, xbject="Str"), returns="Str", defn="lsuffix(self._layer_mapping, xbject)", properties=_C05)
+_mg(f"{LRMG}._prepend_prefix", params=dict(self=LRMG, xbject="Str", capital="Bool"), defaults=dict(capital="True"), returns="Str",
+    defn="('Layer ' if capital else 'layer ') + xbject", properties=_C05)
+# inherited functions whose callee _get_suffix is overridden: re-verified for the layer generator
+_mg(f"{LRMG}._get_rule_subject_and_object_of_dependency", qualname=f"{RMG}._get_rule_subject_and_object_of_dependency", params=dict(self=LRMG, dependency="Dep"),
+    returns="Tuple[Str,Str]", properties=_C05,
+    ensures=["result[0] == lname(self._layer_mapping, dependency[0])", "result[1] == lname(self._layer_mapping, dependency[1])"])
+_mg(f"{LRMG}._create_other_violating_dependencies_message", qualname=f"{RMG}._create_other_violating_dependencies_message",
+    params=dict(self=LRMG, violating_dependencies="Bag[Dep]"), returns="Bag[RVM]", properties=_C05,
+    # 'module X (layer L) imports module Y (layer M)': exactly one record per violating pair, each name with the layer IT belongs to ('(no layer)' if none)
+    ensures=["forall(RVM, lambda m: (m in result) == lother_img(self, violating_dependencies, m))"],
+    locals=dict(messages="Bag[RVM]"),
+    loops={0: dict(sig="for dependency in violating_dependencies", invariant=[
+        "forall(RVM, lambda m: (m in messages) == exists(Dep, lambda d: (d in seen) and m == mk_rvm(lname(self._layer_mapping, d[0]), rule_verb, lname(self._layer_mapping, d[1]))))"])})
+_mg(f"{LRMG}._get_violating_rule_subject_and_objects_layers", params=dict(self=LRMG, rule_violation_dependencies="Bag[Dep]"),
+    returns="Tuple[Dict[Str,Set[Str]],Set[Str]]", properties=_C05, requires=["ltotal(self._layer_mapping, rule_violation_dependencies)"], opts=["cast_not_none"],
+    # grouping per subject LAYER: the layers of the subjects, and per subject layer exactly the layers of the objects of its pairs
+    ensures=["forall(Str, lambda l: (l in result[1]) == lviol(self._layer_mapping, rule_violation_dependencies, l))",
+             "forall(Str, lambda l: (l in result[0]) == lviol(self._layer_mapping, rule_violation_dependencies, l))",
+             "forall(Str, Str, lambda l, k: implies(l in result[0], (k in result[0][l]) == exists(Dep, lambda d: (d in rule_violation_dependencies) and l == lay(self._layer_mapping, d[0]) and k == lay(self._layer_mapping, d[1]))))"],
+    locals=dict(violating_rule_subject_layers="Set[Str]", rule_object_layers_for_rule_subject_layer="DDict[Str,Set[Str]]"),
+    loops={0: dict(sig="for (rule_subject, rule_object) in rule_violation_dependencies", invariant=[
+        "forall(Str, lambda l: (l in violating_rule_subject_layers) == lviol(self._layer_mapping, seen, l))",
+        "forall(Str, lambda l: (l in rule_object_layers_for_rule_subject_layer) == lviol(self._layer_mapping, seen, l))",
+        "forall(Str, Str, lambda l, k: implies(l in rule_object_layers_for_rule_subject_layer, (k in rule_object_layers_for_rule_subject_layer[l]) == exists(Dep, lambda d: (d in seen) and l == lay(self._layer_mapping, d[0]) and k == lay(self._layer_mapping, d[1]))))"])})
+_LNOIMP_LOCALS = dict(messages="Bag[RVM]", violating_rule_subject_layers="Set[Str]")
+_LHINTS = ["exists(Dep, lambda d: (d in rule_violations) and rule_subject_layer == lay(self._layer_mapping, d[0]) and (('layer ' + quoted(lay(self._layer_mapping, d[1]))) in {objs}))",
+           "forall(Str, lambda k: 'layer ' + quoted(k) != '')",
+           "exists(Str, lambda x: (x in {objs}) and x != '')", "same_elements({objs}, lnoimp_objs(self._layer_mapping, rule_violations, rule_subject_layer))"]
+
+
+def _lloops(pre, dname, objs):
+    return {0: dict(sig="for rule_subject_layer in violating_rule_subject_layers", invariant=[
+                f"forall(RVM, lambda m: implies(m in messages, lnoimp_sound(self, rule_violations, {pre}, m)))",
+                f"forall(Str, lambda l: implies(l in seen, exists(RVM, lambda m: (m in messages) and lnoimp_match(self, rule_violations, l, {pre}, m))))"]),
+            1: dict(sig=f"for rule_object_layer in sorted({dname}[rule_subject_layer])", invariant=[
+                f"forall(Str, lambda t: (t in {objs}) == exists(Str, lambda k: (k in seen) and t == 'layer ' + quoted(k)))"])}
+
+
+_mg(f"{LRMG}._create_no_import_between_original_subject_and_objects_message", params=dict(self=LRMG, rule_violations="Bag[Dep]"), returns="Bag[RVM]", properties=_C05,
+    requires=["ltotal(self._layer_mapping, rule_violations)"],
+    # 'Layer "L" does not import layer "M", layer "N"': one record per subject LAYER with a missing pair, listing exactly the layers of the objects of its pairs
+    ensures=["lnoimp_post(self, rule_violations, '', result)"],
+    locals=dict(_LNOIMP_LOCALS, rule_object_layers="Bag[Str]", rule_object_layers_for_rule_subject_layer="Dict[Str,Set[Str]]"),
+    loops=_lloops("''", "rule_object_layers_for_rule_subject_layer", "rule_object_layers"),
+    ghost_at={"self._add_combined_rule_objects(": [h.format(objs="rule_object_layers") for h in _LHINTS]})
+_mg(f"{LRMG}._create_no_import_other_than_between_original_subject_and_objects_message", params=dict(self=LRMG, rule_violations="Bag[Dep]"), returns="Bag[RVM]", properties=_C05,
+    requires=["ltotal(self._layer_mapping, rule_violations)"], ensures=[f"lnoimp_post(self, rule_violations, {ANY_LAYER!r}, result)"],
+    locals=dict(_LNOIMP_LOCALS, rule_objects="Bag[Str]", rule_object_layers_for_rule_subject="Dict[Str,Set[Str]]"),
+    loops=_lloops(repr(ANY_LAYER), "rule_object_layers_for_rule_subject", "rule_objects"),
+    ghost_at={"self._add_combined_any_rule_objects(": [h.format(objs="rule_objects") for h in _LHINTS]})
+_compose(LRMG, "l", ANY_LAYER, req=lambda b: f"ltotal(self._layer_mapping, rule_violations.{b})")
+for _k, _c in list(REG.contracts.items()):
+    if _k.startswith(LRMG + ".") and _c.properties == ["C03"]:
+        _c.properties = list(_C05)
